@@ -49,6 +49,10 @@ def cases(tier):
                     for first in ("component-first", "holder-first"):
                         yield {"labels": [f"component={joined!r}", f"holder={holder!r}", f"prop={prop!r}", f"kinds={ckind}/{ikind}", first],
                                "payload": {"mode": "inline-clash", "joined": joined, "holder": holder, "prop": prop, "ckind": ckind, "ikind": ikind, "first": first}}
+    # (5) an inline object nested in an inline object under a property name that adds nothing to the derived class name
+    for pname in ("_", "-", "$", "", "__", " ", "."):
+        for where in ("response", "body", "component-property", "array-items"):
+            yield {"labels": [f"nested-name={pname!r}", f"where={where}"], "payload": {"mode": "nested-name", "pname": pname, "where": where}}
     if tier == "thorough":
         for a, b, c in itertools.combinations(PAIR_NAMES[:16], 3):
             for scope in ("attr", "query", "schema"):
@@ -56,7 +60,7 @@ def cases(tier):
                        "payload": {"mode": "pair", "names": [a, b, c], "scope": scope, "prefix": "field_"}}
 
 
-SCOPES = ["attr", "attr-parents", "attr-inherited", "query", "header", "schema", "enum", "operation", "tag", "title"]
+SCOPES = ["attr", "attr-parents", "attr-inherited", "query", "query-pathitem", "header", "schema", "enum", "operation", "tag", "title"]
 
 
 # ------------------------------------------------------------------------------------------------- seam sweep
@@ -123,6 +127,9 @@ def _doc(scope, names):
     if scope in ("query", "header"):
         return gen.base_doc(None, paths={"/x": {"get": {"operationId": "theOp", "parameters": [
             {"name": n, "in": scope, "schema": {"type": "integer"}} for n in names], "responses": ok}}})
+    if scope == "query-pathitem":      # one operation's parameters, the first declared by the operation, the others by its path item
+        return gen.base_doc(None, paths={"/x": {"parameters": [{"name": n, "in": "query", "schema": {"type": "integer"}} for n in names[1:]],
+                                                "get": {"operationId": "theOp", "parameters": [{"name": names[0], "in": "query", "schema": {"type": "integer"}}], "responses": ok}}})
     if scope == "schema":
         return gen.base_doc({n: {"type": "object", "properties": {"v": {"type": "integer"}}} for n in names})
     if scope == "enum":
@@ -155,7 +162,7 @@ def _scope_names(scope, res):
                 return [st.target.id for st in node.body if isinstance(st, ast.AnnAssign) and isinstance(st.target, ast.Name)
                         and st.target.id != "additional_properties"]
         return []
-    if scope in ("query", "header"):
+    if scope in ("query", "header", "query-pathitem"):
         if not res.endpoints:
             return None
         ep = res.endpoints[0]
@@ -255,6 +262,45 @@ def diffclass(names):
     if pa == pb:
         return "+".join(flags + ["punct"])
     return "other"
+
+
+def _nested_name(p):
+    inner = {"type": "object", "properties": {"deep": {"type": "string"}}}
+    outer = {"type": "object", "properties": {"top": {"type": "integer"}, p["pname"]: inner}}
+    ok = {"200": {"description": "d"}}
+    comps, paths = None, {}
+    if p["where"] == "response":
+        paths = {"/x": {"get": {"operationId": "theOp", "responses": {"200": {"description": "d", "content": {"application/json": {"schema": outer}}}}}}}
+    elif p["where"] == "body":
+        paths = {"/x": {"post": {"operationId": "theOp", "requestBody": {"required": True, "content": {"application/json": {"schema": outer}}}, "responses": ok}}}
+    elif p["where"] == "component-property":
+        comps = {"Holder": {"type": "object", "properties": {"held": outer}}}
+    else:
+        comps = {"Holder": {"type": "object", "properties": {"rows": {"type": "array", "items": outer}}}}
+    res = gen.generate(gen.base_doc(comps, paths=paths))
+    if res.crash:
+        return {"skipped_crash": True, "outcome": f"crash:{res.crash['type']}@{res.crash['where']}", "nontrivial": False}
+    if res.rejected:
+        return {"outcome": "rejected", "nontrivial": True}
+    viol = []
+    key = f"nested-name/{p['where']}"
+    # two object schemas are described (outer, inner) [+ the holder]: each has a class of its own holding its own attributes, or a diagnostic exists
+    if not res.diags:
+        pkg = res.pkg_tree()
+        attr_sets = []
+        for k, b in pkg.items():
+            if k.startswith("models/") and not k.endswith("__init__.py"):
+                for node in ast.parse(b).body:
+                    if isinstance(node, ast.ClassDef):
+                        attr_sets.append((node.name, sorted(st.target.id for st in node.body if isinstance(st, ast.AnnAssign) and isinstance(st.target, ast.Name) and st.target.id != "additional_properties")))
+        has_inner = any(a == ["deep"] for _n, a in attr_sets)
+        has_outer = any("top" in a for _n, a in attr_sets)
+        if not (has_inner and has_outer):
+            viol.append({"oracle": "silent-merge", "site": "schema", "key": f"{key}/classes",
+                         "detail": f"outer {{top, {p['pname']!r}}} and inner {{deep}} objects -> classes {attr_sets!r} and no diagnostic"})
+    for f, msg in trees.syntax_errors(res.pkg_tree()):
+        viol.append({"oracle": "invalid-identifier", "site": role(f), "key": f"{key}/{norm_msg(msg)}", "detail": f"{f}: {msg}"})
+    return {"violations": viol, "outcome": "ok" if not viol else "viol:" + ",".join(sorted({v['oracle'] for v in viol})), "nontrivial": True, "steps": 2}
 
 
 def _inline_clash(p):
@@ -399,4 +445,6 @@ def run_case(p):
         return _sweep(p["lo"], p["hi"])
     if p["mode"] == "inline-clash":
         return _inline_clash(p)
+    if p["mode"] == "nested-name":
+        return _nested_name(p)
     return _e2e(p)
